@@ -20,6 +20,7 @@ ASSUMPTIONS = ["std HashMap / crossbeam channels behave as documented", "panics 
 
 
 def run(ctx):
+    _wiring(ctx)
     F = ctx.F
     r1(ctx)
     r2(ctx)
@@ -320,6 +321,12 @@ def r8(ctx):
             if not cb.find_calls('track::TrackAttributes::baked') or cb.find_calls('track::Track::distances'):
                 continue
             ctx.read(cb)
+            for d in cb.defs().get(0, []):
+                if d[0] == 'call' and d[2].is_('std::ops::FromResidual::from_residual'):
+                    n += 1
+                    ctx.fail(R, cb, 'findbaked:dropped-statuses', 'the usable-track scan returns None through `?` on '
+                             'the status: tracks whose status check failed (Err) are silently dropped instead of being '
+                             'reported with their error', d[2].ln)
             for bb, kind, payload in [(d[1], d[3]['rv'], None) for d in cb.defs().get(0, []) if d[0] == 'assign']:
                 rv = kind
                 if rv['k'] == 'agg' and rv.get('v') == 'None':
@@ -338,6 +345,17 @@ def r8(ctx):
                                   'findbaked:reported-statuses', 'Some for %s' % vs,
                                   'the usable-track scan reports statuses %s (expected Ready and Wasted)' % vs)
     ctx.floor(R, n, 3)
+    # shard access is blocking: a try_lock would report an empty / partial shard while a worker is busy
+    from lib import deep_calls
+    for b in F.fn_bodies():
+        if b.kind == 'Closure' or not b.npath.startswith(S.STORE + '::'):
+            continue
+        tl = deep_calls(F, b, 'std::sync::Mutex::try_lock', 'std::sync::RwLock::try_read', 'std::sync::RwLock::try_write')
+        for owner, c in tl:
+            n += 1
+            ctx.fail(R, b, 'blocking-shard-access:' + b.npath.rsplit('::', 1)[-1], '%s uses %s on a shard: while a '
+                     'worker holds the shard the method sees it as empty / skips it, so counts and contents are wrong' % (
+                         b.npath.rsplit('::', 1)[-1], c.name), c.ln)
     for name in ('clear', 'shard_stats'):
         b = ctx.anchor(R, S.STORE + '::' + name)
         if b is None:
@@ -363,3 +381,10 @@ def r8(ctx):
         else:
             ctx.check(bool(b.find_calls('std::collections::HashMap::clear')), R, b, 'clear:clears', '',
                       'clear does not clear the shards')
+
+
+def _wiring(ctx):
+    """name-agreement wiring of the configuration values this property depends on (rules/wiring.py)"""
+    import wiring
+    ctx.rule('R09.9', 'configuration plumbing: same-named fields / parameters / setters / call arguments are not crossed')
+    ctx.floor('R09.9', wiring.run(ctx, 'R09.9', {'shards', 'metric', 'default_attributes', 'notifier'}), 20)
